@@ -179,6 +179,9 @@ func c17Values(c *mon.Ctx, r *mon.Rand) {
 				ops = append(ops, fmt.Sprintf("%s%v.Gauge(g%s).Update(%v)", s.prefix, s.tags, id, v))
 			case 2:
 				d := time.Duration(r.Range(0, 1<<30)) * time.Duration(r.Range(1, 1000))
+				if r.Chance(1, 5) {
+					d = -d // clock steps: a recorded value like any other
+				}
 				m := get("timer", s, "t"+id)
 				m.N++
 				s.s.Timer("t" + id).Record(d)
@@ -273,8 +276,11 @@ func c17Values(c *mon.Ctx, r *mon.Rand) {
 	if panicked {
 		return
 	}
+	identity := promKinds == nil || promKinds["identity"]
 	if len(regErrs) > 0 {
-		c.Violation("unexpected-register-error", map[string]interface{}{"why": "a history without name reuse produced registration errors", "errors": regErrs, "case": desc()})
+		if identity {
+			c.Violation("unexpected-register-error", map[string]interface{}{"why": "a history without name reuse produced registration errors", "errors": regErrs, "case": desc()})
+		}
 		return
 	}
 	fams, err := reg.Gather()
@@ -293,12 +299,17 @@ func c17Values(c *mon.Ctx, r *mon.Rand) {
 			k := mon.IdentKey(f.GetName(), labelsOf(m))
 			s := ref[k]
 			if s == nil {
-				c.Violation("prometheus-unknown-series", map[string]interface{}{"why": fmt.Sprintf("series %s%v was never recorded", f.GetName(), labelsOf(m)), "case": desc()})
+				if identity {
+					c.Violation("prometheus-unknown-series", map[string]interface{}{"why": fmt.Sprintf("series %s%v was never recorded", f.GetName(), labelsOf(m)), "case": desc()})
+				}
 				continue
 			}
 			seen[k] = true
 			famOf[k] = f.GetName()
 			bad := func(why string) {
+				if promKinds != nil && !promKinds[s.Kind] {
+					return // stack mode of another property: not its kind of evidence
+				}
 				c.Violation("prometheus-value/"+s.Kind, map[string]interface{}{"why": why, "series": s, "case": desc()})
 			}
 			switch s.Kind {
@@ -372,7 +383,9 @@ func c17Values(c *mon.Ctx, r *mon.Rand) {
 		if s.Kind == "counter" && !s.Updated {
 			continue
 		}
-		c.Violation("prometheus-missing-series", map[string]interface{}{"why": "recorded series absent from Gather()", "series": s, "case": desc()})
+		if identity || promKinds[s.Kind] {
+			c.Violation("prometheus-missing-series", map[string]interface{}{"why": "recorded series absent from Gather()", "series": s, "case": desc()})
+		}
 	}
 	// same name + same keys + different values: separate series of one family
 	byName := map[string]int{}
@@ -499,7 +512,8 @@ func c17Conflicts(c *mon.Ctx, r *mon.Rand) {
 	// callback is then the one the configuration selects ("none", "log",
 	// "stderr" must return; the default panics with the error itself)
 	cfgMode := ""
-	viaConfig := r.Chance(1, 16)
+	cfgBoth := false
+	viaConfig := r.Chance(1, 8)
 	if viaConfig {
 		cfgMode = r.Pick("none", "log", "stderr", "")
 		tt := "summary"
@@ -507,14 +521,25 @@ func c17Conflicts(c *mon.Ctx, r *mon.Rand) {
 			tt = "histogram"
 		}
 		n := atomic.AddInt64(&c17Handlers, 1)
-		cr, err := tprom.Configuration{OnError: cfgMode, TimerType: tt, HandlerPath: fmt.Sprintf("/metrics-%d-%d", os.Getpid(), n)}.NewReporter(tprom.ConfigurationOptions{Registry: reg})
+		copts := tprom.ConfigurationOptions{Registry: reg}
+		// half of them also pass the callback programmatically: that one is then
+		// the configured callback, whatever the configuration's string says
+		cfgBoth = r.Bool()
+		if cfgBoth {
+			copts.OnError = cb
+			cfgMode = r.Pick("none", "log", "stderr", "", "panic", "bogus")
+		}
+		cr, err := tprom.Configuration{OnError: cfgMode, TimerType: tt, HandlerPath: fmt.Sprintf("/metrics-%d-%d", os.Getpid(), n)}.NewReporter(copts)
 		if err != nil {
 			c.Violation("configuration-newreporter-error", map[string]interface{}{"why": err.Error(), "case": desc})
 			return
 		}
 		rep = cr
 		desc["via_configuration_onerror"] = cfgMode
-		panicking = cfgMode == ""
+		desc["callback_also_passed_in_configuration_options"] = cfgBoth
+		if !cfgBoth {
+			panicking = cfgMode == ""
+		}
 		c.Class("conflicts-through-Configuration-"+cfgMode, 1)
 	}
 	var sc tally.Scope
@@ -532,7 +557,7 @@ func c17Conflicts(c *mon.Ctx, r *mon.Rand) {
 				c.Class("callback-panics-observed", 1)
 				return
 			}
-			if err, isErr := p.(error); isErr && viaConfig && cfgMode == "" {
+			if err, isErr := p.(error); isErr && viaConfig && !cfgBoth && cfgMode == "" {
 				if _, rt := err.(runtime.Error); !rt {
 					c.Class("callback-panics-observed", 1) // the configuration's default callback panics with the error
 					return
@@ -572,6 +597,29 @@ func c17Conflicts(c *mon.Ctx, r *mon.Rand) {
 			c.Violation("gather-error", map[string]interface{}{"err": err.Error(), "case": desc})
 		}
 	})
+	if cfgBoth {
+		// the same three uses on a reporter that was given the callback directly:
+		// the programmatic callback must have seen the same rejections
+		nCfg := len(errs)
+		errs = nil
+		reg2 := prom.NewRegistry()
+		rep2 := tprom.NewReporter(tprom.Options{Registerer: reg2, DefaultTimerType: defType, OnRegisterError: cb})
+		var sc2 tally.Scope
+		if viaScope {
+			sc2, _ = vNewRoot(tally.ScopeOptions{CachedReporter: rep2, Separator: "_", OmitCardinalityMetrics: true}, 0, 1)
+		}
+		quiet := func(f func()) {
+			defer func() { recover() }()
+			f()
+		}
+		quiet(func() { use(first, tags1, rep2, sc2) })
+		quiet(func() { use(second, tags2, rep2, sc2) })
+		quiet(func() { use(second, tags3, rep2, sc2) })
+		if len(errs) != nCfg {
+			c.Violation("configured-callback-not-called", map[string]interface{}{"why": fmt.Sprintf("the callback passed in ConfigurationOptions saw %d registration errors; the same uses on a reporter given the same callback in Options produce %d", nCfg, len(errs)), "case": desc})
+		}
+		c.Event("configuration-callback-comparisons", 1)
+	}
 }
 
 // c17Concurrent: G goroutines released together make the first use of the
